@@ -134,6 +134,8 @@ impl Timer {
 	}
 
 	fn to_control(&self) -> ControlMessage {
+		#[cfg(watchexec_verif)]
+		crate::verif::emit("timer_fired", usize::from(self.is_restart), self.done.verif_id());
 		ControlMessage {
 			control: if self.is_restart {
 				Control::ContinueTryGracefulRestart
